@@ -26,11 +26,13 @@ rundemo; without=$?
 echo "demo: with change rc=$with, without change rc=$without"
 if [ $with -eq 0 ] || [ $without -ne 0 ]; then echo "DEMO DOES NOT DISCRIMINATE"; tail -20 /tmp/seeddemo.log; exit 2; fi
 cd /verif
-git -C /repo apply "$seed/patch.diff" || { echo "PATCH DOES NOT APPLY TO /repo"; exit 2; }
+# run the checks against the scratch worktree with the change applied (same as applying it to /repo; /repo stays
+# untouched so that background runs are not disturbed). VERIF_REPO selects the tree the engine loads.
+(cd "$wt" && git apply "$seed/patch.diff") || { echo "PATCH DOES NOT APPLY"; exit 2; }
 for p in "$@"; do
-  out=$(./bin/check $p quick -no-evidence 2>&1); rc=$?
+  out=$(VERIF_REPO="$wt" ./bin/check $p quick -no-evidence 2>&1); rc=$?
   echo "check $p: rc=$rc $(echo "$out" | grep -c '^VIOLATION') violations"
   echo "$out" | grep '^VIOLATION\|^counterexample\|MACHINERY\|INCOMPLETE' | cut -c1-220 | head -6
 done
-git -C /repo checkout -q -- .
-git -C /repo status --short | head -3
+(cd "$wt" && git checkout -q -- . && git clean -fdq)
+rm -f /verif/replays/*.json
